@@ -600,6 +600,11 @@ pub fn median(values: &[Value]) -> Value {
       return value_null!("median");
     }
   }
+  // a number that is not equal to itself (not a number) is not ordered with the others, there is no median
+  #[allow(clippy::eq_op)]
+  if list.iter().any(|x| x != x) {
+    return value_null!("median");
+  }
   list.sort_by(|x, y| x.partial_cmp(y).unwrap_or(std::cmp::Ordering::Equal));
   let index = values.len() / 2;
   if list.len() % 2 == 0 {
@@ -658,6 +663,11 @@ pub fn mode(values: &[Value]) -> Value {
     } else {
       return invalid_argument_type!("mode", "number", value.type_of());
     }
+  }
+  // a number that is not equal to itself (not a number) is not ordered with the others, there is no mode
+  #[allow(clippy::eq_op)]
+  if list.iter().any(|x| x != x) {
+    return value_null!("mode");
   }
   // sort values in ascending order
   list.sort_by(|x, y| x.partial_cmp(y).unwrap_or(std::cmp::Ordering::Equal));
